@@ -260,11 +260,25 @@ def check_method(case, ctx: Ctx):
             return physt.h3([arr[:, j] for j in range(3)], bins, **kwargs)
         return physt.h(arr, bins, **kwargs)
 
+    if case.get("refuse"):
+        # per-axis arguments that do not match the number of axes are refused, never spread over the wrong axes
+        ctx.label("refusal_" + case["refuse"])
+        ctx.nt()
+        ctx.refused(f"{case['entry']}(bins={bins!r}, {case['kwargs']!r}) on {d}-column data", build)
+        return
     ok, h = ctx.maybe(build)
     if not ok:
         ctx.label("binning_refused:" + type(h).__name__)
         return
     require(h.ndim == d, "ndim", f"{h.ndim} vs {d}")
+    if case.get("shared_range"):
+        lo, hi = case["kwargs"]["range"]
+        for j in range(d):
+            e = np.asarray(h.get_bin_edges(j) if hasattr(h, "get_bin_edges") else h.numpy_bins[j])
+            cnt = bins if isinstance(bins, int) else bins[j]
+            require(len(e) == cnt + 1 and float(e[0]) == lo and float(e[-1]) == hi, "shared_range_edges", f"axis {j}: {e.tolist()} for range ({lo}, {hi}), {cnt} bins")
+        ctx.label("shared_range")
+        ctx.nt()
     axes_pairs, incl, m = compare(ctx, h, rows, weights, wkind)
     label_rows(ctx, axes_pairs, incl, rows, weights)
     if isinstance(bins, list) or any(isinstance(v, list) for v in case["kwargs"].values()):
@@ -285,9 +299,26 @@ def method_cases(draw, tier="quick"):
             xs = [base + x * scale for x in draw(st.lists(st.floats(0, 10, allow_nan=False), min_size=n, max_size=n))]
         cols.append(xs)
     rows = [[cols[j][i] for j in range(d)] for i in range(n)]
-    which = draw(st.sampled_from(["int", "int_list", "fixed_width", "fixed_width_list", "integer", "pretty", "mixed_list", "numpy_range"]))
+    which = draw(st.sampled_from(["int", "int_list", "fixed_width", "fixed_width_list", "integer", "pretty", "mixed_list", "numpy_range", "shared_range", "refuse"]))
     kwargs = {}
-    if which == "int":
+    refuse = None
+    if which == "shared_range":
+        # one (lo, hi) pair applies to every axis
+        bins = draw(st.one_of(st.integers(1, 6), st.lists(st.integers(1, 6), min_size=d, max_size=d)))
+        lo = float(draw(st.integers(-12, 5)))
+        kwargs["range"] = [lo, lo + draw(st.sampled_from([1.0, 4.0, 7.5, 20.0]))]
+    elif which == "refuse":
+        refuse = draw(st.sampled_from(["bins_count", "range_count", "kwarg_count"]))
+        other = draw(st.sampled_from([k for k in (1, 2, 3, 4, 5) if k != d and not (k == 2 and refuse == "range_count")]))
+        if refuse == "bins_count":
+            bins = [draw(st.integers(1, 6)) for _ in range(other)]
+        elif refuse == "range_count":
+            bins = draw(st.integers(1, 6))
+            kwargs["range"] = [[-20.0, 20.0 + k] for k in range(other)]
+        else:
+            bins = "fixed_width"
+            kwargs["bin_width"] = [draw(st.sampled_from([0.5, 1.0, 2.5])) for _ in range(other)]
+    elif which == "int":
         bins = draw(st.integers(1, 6))
     elif which == "int_list":
         bins = [draw(st.integers(1, 6)) for _ in range(d)]
@@ -322,7 +353,10 @@ def method_cases(draw, tier="quick"):
         rows = [[cols[j][i] for j in range(d)] for i in range(n)]
     wkind, weights = draw(gen.weights_for(n))
     entry = draw(st.sampled_from({2: ["h", "h2"], 3: ["h", "h3_cols"], 4: ["h"]}[d]))
-    return {"rows": rows, "bins": bins, "kwargs": kwargs, "wkind": wkind, "weights": weights, "entry": entry}
+    if refuse:
+        entry = "h"
+    return {"rows": rows, "bins": bins, "kwargs": kwargs, "wkind": wkind, "weights": weights, "entry": entry,
+            "shared_range": which == "shared_range", "refuse": refuse}
 
 
 FINDINGS = []
